@@ -918,3 +918,42 @@ def pop_loop(body, sym, at):
     if len(tz) != 1 or not once(tz[0]) or not body.dominates(tz[0], ub) or tz[0] == ub:
         return "the bit index is not read (trailing_zeros of the mask) exactly once before the bit is cleared", None
     return None, {"mask": m, "init": init, "index": ("call", body.blocks[tz[0]].term["callee"], (v,)), "pop_block": tz[0], "blocks": loop, "head": h, "once": once}
+
+
+def returns_param(ix, key, allowed_fields):
+    """If crate function `key` returns one of its by-value parameters on every return, having written (as a whole or in part)
+    only the fields `allowed_fields` of it: that parameter's position (1-based); else None.  `f(mut m: Ply) -> Ply` that fills
+    in one field and hands the record back is, for its caller, the record it was given with that field updated."""
+    b = ix.bodies.get(key)
+    if b is None:
+        return None
+    sym = mir.Sym(b, ix)
+    rets = b.defs().get(0, [])
+    if not rets:
+        return None
+    src = set()
+    for (_db, _di, rv) in rets:
+        if rv.get("k") in ("call", "partial"):
+            return None
+        v = mir.strip_copies(sym.rvalue(rv))
+        if v[0] != "arg":
+            return None
+        src.add(v[1])
+    if len(src) != 1:
+        return None
+    name = next(iter(src))
+    pos = [l for l in range(1, b.arg_count + 1) if b.local_name(l) == name]
+    if len(pos) != 1 or b.locals[pos[0]]["ty"].startswith("&"):
+        return None
+    l = pos[0]
+    for bi, i, st in b.stmts():
+        if st["lhs"]["l"] == l:
+            path = [x.get("n") for x in st["lhs"]["p"] if isinstance(x, dict) and "n" in x]
+            if not path or path[0] not in allowed_fields:
+                return None
+    for bi, t in b.calls():
+        if t["dest"]["l"] == l:
+            return None
+    if l in b.mut_borrowed_locals():
+        return None
+    return l
